@@ -31,7 +31,9 @@ class Result:
         parts = [self.verdict]
         parts += self.viol[:2] + self.hang[:1] + self.generr[:1]
         if self.verdict in ("abort", "crash", "sanitizer", "internal"):
-            parts += self.err[-6:]
+            keep = [l for l in self.err if "SUMMARY:" in l or "ERROR: " in l or "runtime error" in l or
+                    "Assertion" in l or "free()" in l or "corrupt" in l]
+            parts += keep[:3] if keep else self.err[-6:]
         return " | ".join(parts)
 
     def signature(self):
